@@ -442,7 +442,7 @@ func corpusC13() []*Bundle {
 func init() {
 	register(&Property{
 		ID: "C13", Race: true, Plain: true, Level: "exploration",
-		Rule:   "cases = rapid-generated sets of 2-4 simulated client tasks x 1-3 queries (filters, row-scoped subqueries, EXISTS, IN-subquery, joins incl. PARALLEL variants, GROUP BY, ASYNC/SPINASYNC stubs, ORDER BY, CTE, derived tables, direct path selectors incl. open-ended slices and top-level functions, USING joins, UNION, CTE self-joins, LIKE filters with per-query patterns, DISTINCT over wide rows, PARALLEL joins failing for every key, ASYNC inside CTE/derived table/subquery, user code writing the variable context from ASYNC goroutines; stub faults placed by argument value) on separate documents with fresh selector texts / warmed selector cache / one shared document / the same query texts issued by every client; executed under np/walk/pct/sync schedules in a -race child (ThreadSanitizer as happens-before oracle on the controlled schedule), then each client re-run alone for solo equivalence; non-trivial = >=2 tasks runnable at some yield, or fault fired, or non-identity map order; distinct = distinct case-file hash; queries reading CONSTANT(..) all receive one shared constants map, queries calling REPORT/REPORT_WHEN must hand exactly their own errors to their own handler (compared with the solo run); nested selects, EXISTS and AWAIT in the ON clause of PARALLEL joins; user code writing a variable context that was never initialised",
+		Rule:   "cases = rapid-generated sets of 2-4 simulated client tasks x 1-3 queries (filters, row-scoped subqueries, EXISTS, IN-subquery, joins incl. PARALLEL variants, GROUP BY, ASYNC/SPINASYNC stubs, ORDER BY, CTE, derived tables, direct path selectors incl. open-ended slices and top-level functions, USING joins, UNION, CTE self-joins, LIKE filters with per-query patterns, DISTINCT over wide rows, PARALLEL joins failing for every key, ASYNC inside CTE/derived table/subquery, user code writing the variable context from ASYNC goroutines; stub faults placed by argument value) on separate documents with fresh selector texts / warmed selector cache / one shared document / the same query texts issued by every client; executed under np/walk/pct/sync schedules in a -race child (ThreadSanitizer as happens-before oracle on the controlled schedule), then each client re-run alone for solo equivalence; non-trivial = >=2 tasks runnable at some yield, or fault fired, or non-identity map order; distinct = distinct case-file hash; queries reading CONSTANT(..) all receive one shared constants map, queries calling REPORT/REPORT_WHEN must hand exactly their own errors to their own handler (compared with the solo run); nested selects, EXISTS and AWAIT in the ON clause of PARALLEL joins; user code writing a variable context that was never initialised; AWAIT over expressions that defer work while the query settles, a user function in a PARALLEL ON with faults (returned error, panic(error), panic(string)) placed by argument value",
 		Corpus: corpusC13, Gen: genC13, Eval: evalC13, QuickChecks: 250,
 		Assumptions: []string{
 			"ThreadSanitizer sees exactly the program's own synchronisation: scheduler hand-offs run under runtime.RaceDisable and simulator bookkeeping is //go:norace over slices",
